@@ -2,24 +2,206 @@
 //@file src/algo/dfs.rs
 use vstd::prelude::*;
 use vstd::std_specs::iter::IteratorSpec;
+use vstd::slice::SliceIndexSpec;
 verus! {
 global size_of usize == 8;
 //@include prelude/std_contracts.rs
 //@include prelude/dg.rs
 //@include speclib/graph.rs
+//@include speclib/dfs_lemmas.rs
 
 /*@struct name=Dfs subst=D=>Dg drop=D @*/
-/*@type name=Step rename=StepDist file=src/algo/dfs_dist.rs @*/
-/*@struct name=DfsDist subst=D=>Dg;Step=>StepDist drop=D file=src/algo/dfs_dist.rs @*/
-/*@type name=Step rename=StepPred file=src/algo/dfs_pred.rs @*/
-/*@struct name=DfsPred subst=D=>Dg;Step=>StepPred drop=D file=src/algo/dfs_pred.rs @*/
+// `type Step` exists in both dfs_dist.rs and dfs_pred.rs (the extractor cannot rename type aliases):
+// the alias of dfs_dist.rs is extracted, the one of dfs_pred.rs is substituted by its definition.
+/*@type name=Step file=src/algo/dfs_dist.rs @*/
+/*@struct name=DfsDist subst=D=>Dg drop=D file=src/algo/dfs_dist.rs @*/
+/*@struct name=DfsPred subst=D=>Dg;Step=>(Option<usize>,usize) drop=D file=src/algo/dfs_pred.rs @*/
 /*@struct name=PredecessorTree file=src/algo/predecessor_tree.rs @*/
 
+/// arc relation of the digraph as a spec closure (for speclib/graph.rs)
+spec fn arcs_of(dg: &Dg) -> ArcRel { |u: int, v: int| dg.has(u, v) }
+
+/// the set of source vertices given to `new`
+spec fn src_set(srcs: Seq<usize>) -> Set<int> { srcs.map_values(|x: usize| x as int).to_set() }
+
+spec fn is_src(srcs: Seq<usize>, x: int) -> bool { exists|i: int| 0 <= i < srcs.len() && #[trigger] srcs[i] as int == x }
+
+proof fn lemma_src_set(srcs: Seq<usize>)
+    ensures forall|x: int| #[trigger] src_set(srcs).contains(x) <==> is_src(srcs, x),
+{
+    let m = srcs.map_values(|x: usize| x as int);
+    assert forall|x: int| #[trigger] src_set(srcs).contains(x) implies is_src(srcs, x) by {
+        assert(m.contains(x));
+        let i = choose|i: int| 0 <= i < m.len() && m[i] == x;
+        assert(srcs[i] as int == x);
+    }
+    assert forall|x: int| is_src(srcs, x) implies #[trigger] src_set(srcs).contains(x) by {
+        let i = choose|i: int| 0 <= i < srcs.len() && #[trigger] srcs[i] as int == x;
+        assert(m[i] == x);
+    }
+}
+
+// =====================================================================================================================
+// Dfs
+// =====================================================================================================================
+// the invariants as functions of the parts of the state (so that an unchanged state trivially keeps them)
+spec fn dfs_sv(st: Seq<usize>) -> Seq<int> { Seq::new(st.len(), |i: int| st[i] as int) }
+
+spec fn dfs_wf(dg: &Dg, st: Seq<usize>, vis: Seq<bool>) -> bool {
+    &&& dg.wf()
+    &&& vis.len() == dg.ord()
+    &&& forall|i: int| 0 <= i < st.len() ==> #[trigger] st[i] < dg.ord()
+}
+
+spec fn dfs_inv_k(dg: &Dg, st: Seq<usize>, vis: Seq<bool>, s: Set<int>, k: int) -> bool {
+    dfs_wf(dg, st, vis) && dfs_core(arcs_of(dg), dg.ord() as int, s, k, vis, dfs_sv(st))
+}
+
+spec fn dfs_inv(dg: &Dg, st: Seq<usize>, vis: Seq<bool>, s: Set<int>) -> bool {
+    exists|k: int| dfs_inv_k(dg, st, vis, s, k)
+}
+
+/// a `Some(v)` step from (st0, vis0) to (st1, vis1): v = st0[m] is the topmost unvisited entry (the entries above it are
+/// visited and discarded); it is replaced by exactly the unvisited out-neighbours of v
+spec fn dfs_yield_at(dg: &Dg, st0: Seq<usize>, vis0: Seq<bool>, st1: Seq<usize>, vis1: Seq<bool>, v: usize, m: int) -> bool {
+    &&& 0 <= m < st0.len() && st0[m] == v
+    &&& forall|i: int| m < i < st0.len() ==> vis0[#[trigger] st0[i] as int]
+    &&& st1.len() >= m
+    &&& forall|i: int| 0 <= i < m ==> #[trigger] st1[i] == st0[i]
+    &&& forall|j: int| m <= j < st1.len() ==> dg.has(v as int, #[trigger] st1[j] as int) && !vis1[st1[j] as int]
+    &&& forall|x: int| #[trigger] dg.has(v as int, x) && !vis1[x] ==> on_stack_from(dfs_sv(st1), m, x)
+}
+
+/// search invariant including the current search path `path`; `sp` are the (ghost) predecessors of the stack entries
+spec fn dfs_inv_pk(dg: &Dg, st: Seq<usize>, vis: Seq<bool>, s: Set<int>, k: int, sp: Seq<Option<int>>, path: Seq<int>) -> bool {
+    &&& dfs_inv_k(dg, st, vis, s, k)
+    &&& path_inv(arcs_of(dg), dg.ord() as int, k, vis, dfs_sv(st), sp, path)
+}
+
+spec fn dfs_inv_p(dg: &Dg, st: Seq<usize>, vis: Seq<bool>, s: Set<int>, path: Seq<int>) -> bool {
+    exists|k: int, sp: Seq<Option<int>>| dfs_inv_pk(dg, st, vis, s, k, sp, path)
+}
+
+/// discarding a visited top entry keeps the search-path invariant
+proof fn lemma_dfs_discard_path(dg: &Dg, st0: Seq<usize>, vis: Seq<bool>, st1: Seq<usize>, s: Set<int>, path: Seq<int>)
+    requires
+        dfs_inv_p(dg, st0, vis, s, path),
+        st0.len() > 0,
+        vis[st0.last() as int],
+        st1 == st0.drop_last(),
+    ensures
+        dfs_inv_p(dg, st1, vis, s, path),
+{
+    let (k, sp) = choose|k: int, sp: Seq<Option<int>>| dfs_inv_pk(dg, st0, vis, s, k, sp, path);
+    let has = arcs_of(dg);
+    let ord = dg.ord() as int;
+    let k2 = roots_after_pop(k, st0.len() as int);
+    assert(dfs_sv(st1) =~= dfs_sv(st0).drop_last());
+    assert(dfs_sv(st0).last() == st0.last() as int);
+    lemma_core_pop_visited(has, ord, s, k, vis, dfs_sv(st0));
+    lemma_path_pop_visited(has, ord, k, vis, dfs_sv(st0), sp, path);
+    assert(dfs_inv_pk(dg, st1, vis, s, k2, sp.drop_last(), path));
+}
+
+/// yielding the (unvisited) top entry v is a SEARCH STEP for some predecessor p; the search path becomes path[..= p] + [v]
+proof fn lemma_dfs_yield_path(dg: &Dg, st0: Seq<usize>, vis0: Seq<bool>, st1: Seq<usize>, vis1: Seq<bool>, v: usize, s: Set<int>, path: Seq<int>)
+    requires
+        dfs_inv_p(dg, st0, vis0, s, path),
+        st0.len() > 0,
+        v == st0.last(),
+        !vis0[v as int],
+        vis1 == vis0.update(v as int, true),
+        dfs_yield_at(dg, st0, vis0, st1, vis1, v, st0.len() - 1),
+    ensures
+        exists|p: Option<int>| dfs_inv_p(dg, st1, vis1, s, #[trigger] path_after(path, p, v as int)) && search_step(arcs_of(dg), dg.ord() as int, s, vis0, path, p, v as int),
+{
+    let (k, sp) = choose|k: int, sp: Seq<Option<int>>| dfs_inv_pk(dg, st0, vis0, s, k, sp, path);
+    let has = arcs_of(dg);
+    let ord = dg.ord() as int;
+    let n0 = st0.len() - 1;
+    let k2 = roots_after_pop(k, st0.len() as int);
+    let sv0 = dfs_sv(st0);
+    let sv1 = dfs_sv(st1);
+    let pushed = sv1.skip(n0);
+    let p = sp.last();
+    let sp1 = sp.drop_last() + Seq::new(pushed.len(), |i: int| Some(v as int));
+    assert(sv0.last() == v as int);
+    assert(sv1 =~= sv0.drop_last() + pushed);
+    assert forall|x: int| #[trigger] has(v as int, x) && !vis1[x] implies pushed.contains(x) by {
+        assert(dg.has(v as int, x));
+        assert(on_stack_from(sv1, n0, x));
+        let i = choose|i: int| n0 <= i < sv1.len() && #[trigger] sv1[i] == x;
+        assert(pushed[i - n0] == x);
+    }
+    assert forall|j: int| 0 <= j < pushed.len() implies has(v as int, #[trigger] pushed[j]) && !vis1[pushed[j]] by {
+        assert(pushed[j] == st1[n0 + j] as int);
+    }
+    lemma_core_push_step(has, ord, s, k, vis0, sv0, pushed);
+    lemma_core_top_preorder(has, ord, s, k, vis0, sv0);
+    lemma_path_push_step(has, ord, k, vis0, sv0, sp, path, pushed);
+    assert(dfs_wf(dg, st1, vis1)) by {
+        assert forall|i: int| 0 <= i < st1.len() implies #[trigger] st1[i] < dg.ord() by {
+            assert(sv1[i] == st1[i] as int);
+        }
+    }
+    assert(dfs_inv_pk(dg, st1, vis1, s, k2, sp1, path_after(path, p, v as int)));
+    assert(search_step(has, ord, s, vis0, path, p, v as int));
+}
+
+/// the state built by `new` satisfies the search invariants (empty search path)
+proof fn lemma_dfs_new_inv(dg: &Dg, all: Seq<usize>, vis: Seq<bool>)
+    requires
+        dg.wf(),
+        forall|i: int| 0 <= i < all.len() ==> #[trigger] all[i] < dg.ord(),
+        vis.len() == dg.ord(),
+        forall|i: int| 0 <= i < vis.len() ==> !#[trigger] vis[i],
+    ensures
+        dfs_inv_k(dg, all, vis, src_set(all), all.len() as int),
+        dfs_inv_pk(dg, all, vis, src_set(all), all.len() as int, Seq::new(all.len(), |i: int| None::<int>), Seq::<int>::empty()),
+{
+    lemma_src_set(all);
+    let sv = dfs_sv(all);
+    assert forall|i: int| 0 <= i < sv.len() implies src_set(all).contains(#[trigger] sv[i]) by {
+        assert(all[i] as int == sv[i]);
+        assert(is_src(all, sv[i]));
+    }
+    assert forall|x: int| #[trigger] src_set(all).contains(x) implies 0 <= x < dg.ord() && on_stack_from(sv, 0, x) by {
+        assert(is_src(all, x));
+        let i = choose|i: int| 0 <= i < all.len() && #[trigger] all[i] as int == x;
+        assert(sv[i] == x);
+    }
+}
+
 impl<'a> Dfs<'a> {
-    spec fn inv(&self) -> bool {
-        &&& self.digraph.wf()
-        &&& self.visited.len() == self.digraph.ord()
-        &&& forall|i: int| 0 <= i < self.stack@.len() ==> #[trigger] self.stack@[i] < self.visited.len()
+    /// vertices of the stack entries, bottom first
+    spec fn sv(&self) -> Seq<int> { dfs_sv(self.stack@) }
+
+    /// memory-safety invariant (C13): everything `next` indexes with is in range
+    spec fn wf(&self) -> bool { dfs_wf(self.digraph, self.stack@, self.visited@) }
+
+    /// search invariant w.r.t. the source set `s` (not stored in the struct) and the number `k` of root entries
+    spec fn inv_k(&self, s: Set<int>, k: int) -> bool { dfs_inv_k(self.digraph, self.stack@, self.visited@, s, k) }
+
+    /// search invariant w.r.t. the source set `s`
+    spec fn inv(&self, s: Set<int>) -> bool { dfs_inv(self.digraph, self.stack@, self.visited@, s) }
+
+    /// search invariant w.r.t. the source set `s` and the current search path `path`
+    spec fn inv_p(&self, s: Set<int>, path: Seq<int>) -> bool { dfs_inv_p(self.digraph, self.stack@, self.visited@, s, path) }
+
+    /// EXHAUSTION (C06 "every reachable vertex is yielded"): when the iteration has ended as `next` promises (no
+    /// unvisited vertex left on the stack), the visited (= yielded) vertices are exactly the reachable ones
+    proof fn lemma_exhausted(&self, s: Set<int>)
+        requires
+            self.inv(s),
+            forall|i: int| 0 <= i < self.stack@.len() ==> self.visited@[#[trigger] self.stack@[i] as int],
+        ensures
+            visited_is_reachable(arcs_of(self.digraph), self.digraph.ord() as int, s, self.visited@),
+    {
+        let k = choose|k: int| dfs_inv_k(self.digraph, self.stack@, self.visited@, s, k);
+        assert forall|i: int| 0 <= i < self.sv().len() implies self.visited@[#[trigger] self.sv()[i]] by {
+            assert(self.visited@[self.stack@[i] as int]);
+        }
+        lemma_core_exhausted(arcs_of(self.digraph), self.digraph.ord() as int, s, k, self.visited@, self.sv());
     }
 
     /*@fn impl=Dfs name=new subst=D=>Dg drop=D dropwhere=D
@@ -28,20 +210,882 @@ impl<'a> Dfs<'a> {
         sources.obeys_prophetic_iter_laws(),
         sources.decrease() is Some,
     ensures
-        r.inv(),
+        forall|i: int| 0 <= i < sources.remaining().len() ==> #[trigger] sources.remaining()[i] < digraph.ord(),
+        r.digraph == digraph,
+        r.stack@ == sources.remaining(),
+        r.visited@ == Seq::new(digraph.ord(), |i: int| false),
+        r.wf(),
+        r.inv_k(src_set(sources.remaining()), sources.remaining().len() as int),
+        r.inv(src_set(sources.remaining())),
+        dfs_inv_pk(r.digraph, r.stack@, r.visited@, src_set(sources.remaining()), sources.remaining().len() as int, Seq::new(sources.remaining().len(), |i: int| None::<int>), Seq::<int>::empty()) && r.inv_p(src_set(sources.remaining()), Seq::<int>::empty()),
+    @fn_start
+        let ghost all = sources.remaining();
     @loop 1
     invariant
-        true,
+        it1.iter.obeys_prophetic_iter_laws(),
+        it1.iter.decrease() is Some,
+        it1.seq() == all,
+        order == digraph.ord(),
+        stack@ =~= it1.seq().take(it1.index()),
+        forall|i: int| 0 <= i < it1.index() ==> #[trigger] it1.seq()[i] < order,
+    @fn_end
+        proof {
+            assert(stack@ =~= all);
+            assert forall|vis: Seq<bool>| #![trigger dfs_inv_k(digraph, stack@, vis, src_set(all), all.len() as int)]
+                vis.len() == order && (forall|i: int| 0 <= i < vis.len() ==> !#[trigger] vis[i]) implies
+                dfs_inv_k(digraph, stack@, vis, src_set(all), all.len() as int)
+                && dfs_inv_pk(digraph, stack@, vis, src_set(all), all.len() as int, Seq::new(all.len(), |i: int| None::<int>), Seq::<int>::empty()) by {
+                lemma_dfs_new_inv(digraph, all, vis);
+            }
+        }
     @*/
 
     /*@fn impl=Dfs trait=Iterator name=next subst=Self::Item=>usize
     requires
-        old(self).inv(),
+        old(self).wf(),
     ensures
-        final(self).inv(),
+        final(self).wf(),
+        final(self).digraph == old(self).digraph,
+        // (known defect F2) the iteration may only end when no unvisited vertex is left on the stack
+        r is None ==> forall|i: int| 0 <= i < final(self).stack@.len() ==> final(self).visited@[#[trigger] final(self).stack@[i] as int],
+        // None: nothing is yielded, nothing is marked; only visited entries are discarded from the top of the stack
+        r is None ==> final(self).visited@ == old(self).visited@,
+        r is None ==> final(self).stack@.len() <= old(self).stack@.len() && forall|i: int| 0 <= i < final(self).stack@.len() ==> #[trigger] final(self).stack@[i] == old(self).stack@[i],
+        r is None ==> forall|i: int| final(self).stack@.len() <= i < old(self).stack@.len() ==> old(self).visited@[#[trigger] old(self).stack@[i] as int],
+        // Some(v): v was unvisited (never yielded before) and is the only vertex newly marked
+        r is Some ==> r->0 < old(self).digraph.ord() && !old(self).visited@[r->0 as int] && final(self).visited@ == old(self).visited@.update(r->0 as int, true),
+        // Some(v): v was the topmost unvisited stack entry; it is replaced by exactly the unvisited out-neighbours of v
+        r is Some ==> exists|m: int| dfs_yield_at(old(self).digraph, old(self).stack@, old(self).visited@, final(self).stack@, final(self).visited@, r->0, m),
+        // the search invariant is preserved, for every source set it holds for
+        forall|s: Set<int>| #[trigger] old(self).inv(s) ==> final(self).inv(s),
+        // C06: only reachable vertices are yielded, in depth-first preorder (new root or out-neighbour of a visited vertex)
+        r is Some ==> forall|s: Set<int>| #[trigger] old(self).inv(s) ==> reachable(arcs_of(old(self).digraph), s, r->0 as int),
+        r is Some ==> forall|s: Set<int>| #[trigger] old(self).inv(s) ==> preorder_step(arcs_of(old(self).digraph), old(self).digraph.ord() as int, s, old(self).visited@, r->0 as int),
+        // C06 (search path): v is yielded as a new root or as an out-neighbour of the deepest vertex p on the current search
+        // path that still has an unvisited out-neighbour; the search path becomes path[..= p] + [v] ([v] for a root)
+        r is None ==> forall|s: Set<int>, path: Seq<int>| #[trigger] old(self).inv_p(s, path) ==> final(self).inv_p(s, path),
+        r is Some ==> forall|s: Set<int>, path: Seq<int>| #[trigger] old(self).inv_p(s, path) ==> exists|p: Option<int>| final(self).inv_p(s, #[trigger] path_after(path, p, r->0 as int)) && search_step(arcs_of(old(self).digraph), old(self).digraph.ord() as int, s, old(self).visited@, path, p, r->0 as int),
+    @before `return None;`
+        proof {
+            assert(self.sv() =~= old(self).sv().drop_last());
+            assert forall|s: Set<int>| #[trigger] old(self).inv(s) implies self.inv(s) by {
+                let k = choose|k: int| dfs_inv_k(old(self).digraph, old(self).stack@, old(self).visited@, s, k);
+                lemma_core_pop_visited(arcs_of(self.digraph), self.digraph.ord() as int, s, k, old(self).visited@, old(self).sv());
+                assert(self.inv_k(s, roots_after_pop(k, old(self).stack@.len() as int)));
+            }
+            assert forall|s: Set<int>, path: Seq<int>| #[trigger] old(self).inv_p(s, path) implies self.inv_p(s, path) by {
+                lemma_dfs_discard_path(self.digraph, old(self).stack@, old(self).visited@, self.stack@, s, path);
+            }
+        }
     @loop 1
     invariant
-        true,
+        it1.iter.obeys_prophetic_iter_laws(),
+        it1.iter.decrease() is Some,
+        self.digraph == old(self).digraph,
+        old(self).wf(),
+        self.wf(),
+        old(self).stack@.len() > 0,
+        u == old(self).stack@.last(),
+        !old(self).visited@[u as int],
+        self.visited@ == old(self).visited@.update(u as int, true),
+        self.stack@.len() >= old(self).stack@.len() - 1,
+        forall|i: int| 0 <= i < old(self).stack@.len() - 1 ==> #[trigger] self.stack@[i] == old(self).stack@[i],
+        forall|i: int| 0 <= i < it1.seq().len() ==> self.digraph.has(u as int, #[trigger] it1.seq()[i] as int),
+        forall|j: int| old(self).stack@.len() - 1 <= j < self.stack@.len() ==> self.digraph.has(u as int, #[trigger] self.stack@[j] as int) && !self.visited@[self.stack@[j] as int],
+        forall|x: usize| #[trigger] self.digraph.has(u as int, x as int) && !self.visited@[x as int] ==> on_stack_from(self.sv(), old(self).stack@.len() - 1, x as int) || pending(it1.seq(), it1.index(), x),
+    @loop_start 1
+        let ghost sv_prev = self.sv();
+    @loop_end 1
+        proof {
+            lemma_on_stack_mono(sv_prev, self.sv(), old(self).stack@.len() - 1);
+            if !self.visited@[v as int] {
+                assert(self.sv()[self.stack@.len() - 1] == v as int);
+            }
+        }
+    @fn_end
+        proof {
+            let ghost n0 = old(self).stack@.len() - 1;
+            let ghost has = arcs_of(self.digraph);
+            let ghost ord = self.digraph.ord() as int;
+            let ghost pushed = self.sv().skip(n0);
+            assert(old(self).sv().last() == u as int);
+            assert(self.sv() =~= old(self).sv().drop_last() + pushed);
+            assert forall|x: int| #[trigger] self.digraph.has(u as int, x) && !self.visited@[x] implies on_stack_from(self.sv(), n0, x) by {
+                let xu = x as usize;
+                assert(self.digraph.has(u as int, xu as int));
+            }
+            assert(dfs_yield_at(old(self).digraph, old(self).stack@, old(self).visited@, self.stack@, self.visited@, u, n0));
+            assert forall|x: int| #[trigger] has(u as int, x) && !self.visited@[x] implies pushed.contains(x) by {
+                assert(self.digraph.has(u as int, x));
+                assert(on_stack_from(self.sv(), n0, x));
+                let i = choose|i: int| n0 <= i < self.sv().len() && #[trigger] self.sv()[i] == x;
+                assert(pushed[i - n0] == x);
+            }
+            assert forall|j: int| 0 <= j < pushed.len() implies has(u as int, #[trigger] pushed[j]) && !self.visited@[pushed[j]] by {
+                assert(pushed[j] == self.stack@[n0 + j] as int);
+            }
+            assert forall|s: Set<int>| #[trigger] old(self).inv(s) implies
+                self.inv(s)
+                && reachable(has, s, u as int)
+                && preorder_step(has, ord, s, old(self).visited@, u as int) by {
+                let k = choose|k: int| dfs_inv_k(old(self).digraph, old(self).stack@, old(self).visited@, s, k);
+                lemma_core_push_step(has, ord, s, k, old(self).visited@, old(self).sv(), pushed);
+                lemma_core_top_preorder(has, ord, s, k, old(self).visited@, old(self).sv());
+                assert(self.inv_k(s, roots_after_pop(k, old(self).stack@.len() as int)));
+            }
+            assert forall|s: Set<int>, path: Seq<int>| #[trigger] old(self).inv_p(s, path) implies
+                (exists|p: Option<int>| self.inv_p(s, #[trigger] path_after(path, p, u as int)) && search_step(has, ord, s, old(self).visited@, path, p, u as int)) by {
+                lemma_dfs_yield_path(self.digraph, old(self).stack@, old(self).visited@, self.stack@, self.visited@, u, s, path);
+            }
+        }
+    @*/
+}
+
+// =====================================================================================================================
+// DfsDist
+// =====================================================================================================================
+spec fn dist_sv(st: Seq<(usize, usize)>) -> Seq<int> { Seq::new(st.len(), |i: int| st[i].0 as int) }
+
+spec fn dist_sd(st: Seq<(usize, usize)>) -> Seq<int> { Seq::new(st.len(), |i: int| st[i].1 as int) }
+
+spec fn dist_wf(dg: &Dg, st: Seq<(usize, usize)>, vis: Seq<bool>) -> bool {
+    &&& dg.wf()
+    &&& vis.len() == dg.ord()
+    &&& forall|i: int| 0 <= i < st.len() ==> (#[trigger] st[i]).0 < dg.ord()
+    // `w + 1` cannot overflow: depth + number of unvisited vertices <= order
+    &&& forall|i: int| 0 <= i < st.len() ==> (#[trigger] st[i]).1 + count_false(vis) <= dg.ord()
+}
+
+spec fn dist_inv_k(dg: &Dg, st: Seq<(usize, usize)>, vis: Seq<bool>, s: Set<int>, k: int, dep: Seq<int>) -> bool {
+    &&& dist_wf(dg, st, vis)
+    &&& dfs_core(arcs_of(dg), dg.ord() as int, s, k, vis, dist_sv(st))
+    &&& dist_entries(arcs_of(dg), dg.ord() as int, k, vis, dep, dist_sv(st), dist_sd(st))
+}
+
+spec fn dist_inv(dg: &Dg, st: Seq<(usize, usize)>, vis: Seq<bool>, s: Set<int>, dep: Seq<int>) -> bool {
+    exists|k: int| dist_inv_k(dg, st, vis, s, k, dep)
+}
+
+/// a `Some((v, d))` step: (v, d) = st0[m] is the topmost unvisited entry (the entries above it are visited and
+/// discarded); it is replaced by exactly the unvisited out-neighbours of v, each with depth d + 1
+spec fn dist_yield_at(dg: &Dg, st0: Seq<(usize, usize)>, vis0: Seq<bool>, st1: Seq<(usize, usize)>, vis1: Seq<bool>, e: (usize, usize), m: int) -> bool {
+    &&& 0 <= m < st0.len() && st0[m] == e
+    &&& forall|i: int| m < i < st0.len() ==> vis0[(#[trigger] st0[i]).0 as int]
+    &&& st1.len() >= m
+    &&& forall|i: int| 0 <= i < m ==> #[trigger] st1[i] == st0[i]
+    &&& forall|j: int| m <= j < st1.len() ==> dg.has(e.0 as int, (#[trigger] st1[j]).0 as int) && !vis1[st1[j].0 as int] && st1[j].1 == e.1 + 1
+    &&& forall|x: int| #[trigger] dg.has(e.0 as int, x) && !vis1[x] ==> on_stack_from(dist_sv(st1), m, x)
+}
+
+/// search invariant including the current search path `path`; `sp` are the (ghost) predecessors of the stack entries;
+/// the depth of an entry is the number of path vertices down to its predecessor
+spec fn dist_inv_pk(dg: &Dg, st: Seq<(usize, usize)>, vis: Seq<bool>, s: Set<int>, k: int, sp: Seq<Option<int>>, path: Seq<int>) -> bool {
+    &&& dist_wf(dg, st, vis)
+    &&& dfs_core(arcs_of(dg), dg.ord() as int, s, k, vis, dist_sv(st))
+    &&& path_inv(arcs_of(dg), dg.ord() as int, k, vis, dist_sv(st), sp, path)
+    &&& depth_labels(k, sp, dist_sd(st), path)
+}
+
+spec fn dist_inv_p(dg: &Dg, st: Seq<(usize, usize)>, vis: Seq<bool>, s: Set<int>, path: Seq<int>) -> bool {
+    exists|k: int, sp: Seq<Option<int>>| dist_inv_pk(dg, st, vis, s, k, sp, path)
+}
+
+/// discarding a visited top entry keeps the search-path invariant
+proof fn lemma_dist_discard_path(dg: &Dg, st0: Seq<(usize, usize)>, vis: Seq<bool>, st1: Seq<(usize, usize)>, s: Set<int>, path: Seq<int>)
+    requires
+        dist_inv_p(dg, st0, vis, s, path),
+        st0.len() > 0,
+        vis[st0.last().0 as int],
+        st1 == st0.drop_last(),
+    ensures
+        dist_inv_p(dg, st1, vis, s, path),
+{
+    let (k, sp) = choose|k: int, sp: Seq<Option<int>>| dist_inv_pk(dg, st0, vis, s, k, sp, path);
+    let has = arcs_of(dg);
+    let ord = dg.ord() as int;
+    let k2 = roots_after_pop(k, st0.len() as int);
+    assert(dist_sv(st1) =~= dist_sv(st0).drop_last());
+    assert(dist_sd(st1) =~= dist_sd(st0).drop_last());
+    assert(dist_sv(st0).last() == st0.last().0 as int);
+    lemma_core_pop_visited(has, ord, s, k, vis, dist_sv(st0));
+    lemma_path_pop_visited(has, ord, k, vis, dist_sv(st0), sp, path);
+    lemma_depth_pop_visited(k, sp, dist_sd(st0), path);
+    assert(dist_inv_pk(dg, st1, vis, s, k2, sp.drop_last(), path));
+}
+
+/// yielding the (unvisited) top entry (v, d) is a SEARCH STEP for some predecessor p; the search path becomes
+/// path[..= p] + [v] and d is its length minus one, i.e. the depth of v in the search forest
+proof fn lemma_dist_yield_path(dg: &Dg, st0: Seq<(usize, usize)>, vis0: Seq<bool>, st1: Seq<(usize, usize)>, vis1: Seq<bool>, e: (usize, usize), s: Set<int>, path: Seq<int>)
+    requires
+        dist_inv_p(dg, st0, vis0, s, path),
+        st0.len() > 0,
+        e == st0.last(),
+        !vis0[e.0 as int],
+        vis1 == vis0.update(e.0 as int, true),
+        dist_yield_at(dg, st0, vis0, st1, vis1, e, st0.len() - 1),
+    ensures
+        exists|p: Option<int>| dist_inv_p(dg, st1, vis1, s, #[trigger] path_after(path, p, e.0 as int))
+            && search_step(arcs_of(dg), dg.ord() as int, s, vis0, path, p, e.0 as int)
+            && e.1 == path_after(path, p, e.0 as int).len() - 1,
+{
+    let (k, sp) = choose|k: int, sp: Seq<Option<int>>| dist_inv_pk(dg, st0, vis0, s, k, sp, path);
+    let has = arcs_of(dg);
+    let ord = dg.ord() as int;
+    let n0 = st0.len() - 1;
+    let v = e.0 as int;
+    let k2 = roots_after_pop(k, st0.len() as int);
+    let sv0 = dist_sv(st0);
+    let sd0 = dist_sd(st0);
+    let sv1 = dist_sv(st1);
+    let sd1 = dist_sd(st1);
+    let pushed = sv1.skip(n0);
+    let p = sp.last();
+    let sp1 = sp.drop_last() + Seq::new(pushed.len(), |i: int| Some(v));
+    assert(sv0.last() == v && sd0.last() == e.1 as int);
+    assert(sv1 =~= sv0.drop_last() + pushed);
+    assert(sd1 =~= sd0.drop_last() + Seq::new(pushed.len(), |i: int| sd0.last() + 1)) by {
+        assert forall|i: int| n0 <= i < st1.len() implies sd1[i] == e.1 + 1 by {
+            assert(st1[i].1 == e.1 + 1);
+        }
+    }
+    assert forall|x: int| #[trigger] has(v, x) && !vis1[x] implies pushed.contains(x) by {
+        assert(dg.has(v, x));
+        assert(on_stack_from(sv1, n0, x));
+        let i = choose|i: int| n0 <= i < sv1.len() && #[trigger] sv1[i] == x;
+        assert(pushed[i - n0] == x);
+    }
+    assert forall|j: int| 0 <= j < pushed.len() implies has(v, #[trigger] pushed[j]) && !vis1[pushed[j]] by {
+        assert(pushed[j] == st1[n0 + j].0 as int);
+    }
+    lemma_core_push_step(has, ord, s, k, vis0, sv0, pushed);
+    lemma_core_top_preorder(has, ord, s, k, vis0, sv0);
+    lemma_path_push_step(has, ord, k, vis0, sv0, sp, path, pushed);
+    lemma_depth_push_step(has, ord, k, vis0, sv0, sp, sd0, path, pushed.len());
+    lemma_count_false_update(vis0, v);
+    assert(dist_wf(dg, st1, vis1)) by {
+        assert forall|i: int| 0 <= i < st1.len() implies (#[trigger] st1[i]).0 < dg.ord() by {
+            assert(sv1[i] == st1[i].0 as int);
+        }
+        assert forall|i: int| 0 <= i < st1.len() implies (#[trigger] st1[i]).1 + count_false(vis1) <= dg.ord() by {
+            if i < n0 { assert(st1[i] == st0[i]); } else { assert(st1[i].1 == e.1 + 1); }
+        }
+    }
+    assert(dist_inv_pk(dg, st1, vis1, s, k2, sp1, path_after(path, p, v)));
+    assert(search_step(has, ord, s, vis0, path, p, v));
+}
+
+/// the state built by `new` satisfies the search invariants (empty search path, any depth record)
+proof fn lemma_dist_new_inv(dg: &Dg, all: Seq<usize>, st: Seq<(usize, usize)>, vis: Seq<bool>)
+    requires
+        dg.wf(),
+        st == Seq::new(all.len(), |i: int| (all[i], 0usize)),
+        forall|i: int| 0 <= i < all.len() ==> #[trigger] all[i] < dg.ord(),
+        vis.len() == dg.ord(),
+        forall|i: int| 0 <= i < vis.len() ==> !#[trigger] vis[i],
+    ensures
+        dist_wf(dg, st, vis),
+        forall|dep: Seq<int>| dep.len() == dg.ord() ==> #[trigger] dist_inv_k(dg, st, vis, src_set(all), all.len() as int, dep),
+        dist_inv_pk(dg, st, vis, src_set(all), all.len() as int, Seq::new(all.len(), |i: int| None::<int>), Seq::<int>::empty()),
+{
+    lemma_src_set(all);
+    lemma_count_false_bound(vis);
+    let sv = dist_sv(st);
+    assert forall|i: int| 0 <= i < sv.len() implies src_set(all).contains(#[trigger] sv[i]) by {
+        assert(all[i] as int == sv[i]);
+        assert(is_src(all, sv[i]));
+    }
+    assert forall|x: int| #[trigger] src_set(all).contains(x) implies 0 <= x < dg.ord() && on_stack_from(sv, 0, x) by {
+        assert(is_src(all, x));
+        let i = choose|i: int| 0 <= i < all.len() && #[trigger] all[i] as int == x;
+        assert(sv[i] == x);
+    }
+    assert(dist_wf(dg, st, vis));
+    assert(dfs_core(arcs_of(dg), dg.ord() as int, src_set(all), all.len() as int, vis, sv));
+}
+
+impl<'a> DfsDist<'a> {
+    /// vertices / depths of the stack entries, bottom first
+    spec fn sv(&self) -> Seq<int> { dist_sv(self.stack@) }
+    spec fn sd(&self) -> Seq<int> { dist_sd(self.stack@) }
+
+    /// memory-safety invariant (C13): indices in range, `w + 1` cannot overflow
+    spec fn wf(&self) -> bool { dist_wf(self.digraph, self.stack@, self.visited@) }
+
+    /// search invariant w.r.t. source set `s`, root count `k` and the depths `dep` reported so far
+    spec fn inv_k(&self, s: Set<int>, k: int, dep: Seq<int>) -> bool { dist_inv_k(self.digraph, self.stack@, self.visited@, s, k, dep) }
+
+    /// search invariant w.r.t. source set `s` and the depths `dep` reported so far
+    spec fn inv(&self, s: Set<int>, dep: Seq<int>) -> bool { dist_inv(self.digraph, self.stack@, self.visited@, s, dep) }
+
+    /// search invariant w.r.t. the source set `s` and the current search path `path`
+    spec fn inv_p(&self, s: Set<int>, path: Seq<int>) -> bool { dist_inv_p(self.digraph, self.stack@, self.visited@, s, path) }
+
+    /// EXHAUSTION (C06 "every reachable vertex is yielded"), as for Dfs
+    proof fn lemma_exhausted(&self, s: Set<int>, dep: Seq<int>)
+        requires
+            self.inv(s, dep),
+            forall|i: int| 0 <= i < self.stack@.len() ==> self.visited@[(#[trigger] self.stack@[i]).0 as int],
+        ensures
+            visited_is_reachable(arcs_of(self.digraph), self.digraph.ord() as int, s, self.visited@),
+    {
+        let k = choose|k: int| dist_inv_k(self.digraph, self.stack@, self.visited@, s, k, dep);
+        assert forall|i: int| 0 <= i < self.sv().len() implies self.visited@[#[trigger] self.sv()[i]] by {
+            assert(self.visited@[self.stack@[i].0 as int]);
+        }
+        lemma_core_exhausted(arcs_of(self.digraph), self.digraph.ord() as int, s, k, self.visited@, self.sv());
+    }
+
+    /*@fn impl=DfsDist name=new file=src/algo/dfs_dist.rs subst=D=>Dg drop=D dropwhere=D
+    requires
+        digraph.wf(),
+        sources.obeys_prophetic_iter_laws(),
+        sources.decrease() is Some,
+    ensures
+        forall|i: int| 0 <= i < sources.remaining().len() ==> #[trigger] sources.remaining()[i] < digraph.ord(),
+        r.digraph == digraph,
+        r.stack@ == Seq::new(sources.remaining().len(), |i: int| (sources.remaining()[i], 0usize)),
+        r.visited@ == Seq::new(digraph.ord(), |i: int| false),
+        r.wf(),
+        forall|dep: Seq<int>| #![trigger r.inv_k(src_set(sources.remaining()), sources.remaining().len() as int, dep)] #![trigger r.inv(src_set(sources.remaining()), dep)] dep.len() == digraph.ord() ==> r.inv_k(src_set(sources.remaining()), sources.remaining().len() as int, dep) && r.inv(src_set(sources.remaining()), dep),
+        dist_inv_pk(r.digraph, r.stack@, r.visited@, src_set(sources.remaining()), sources.remaining().len() as int, Seq::new(sources.remaining().len(), |i: int| None::<int>), Seq::<int>::empty()) && r.inv_p(src_set(sources.remaining()), Seq::<int>::empty()),
+    @fn_start
+        let ghost all = sources.remaining();
+    @loop 1
+    invariant
+        it1.iter.obeys_prophetic_iter_laws(),
+        it1.iter.decrease() is Some,
+        it1.seq() == all,
+        order == digraph.ord(),
+        stack@ =~= Seq::new(it1.index() as nat, |i: int| (all[i], 0usize)),
+        0 <= it1.index() <= all.len(),
+        forall|i: int| 0 <= i < it1.index() ==> #[trigger] it1.seq()[i] < order,
+    @fn_end
+        proof {
+            assert(stack@ =~= Seq::new(all.len(), |i: int| (all[i], 0usize)));
+            assert forall|vis: Seq<bool>| #![trigger dist_wf(digraph, stack@, vis)]
+                vis.len() == order && (forall|i: int| 0 <= i < vis.len() ==> !#[trigger] vis[i]) implies
+                dist_wf(digraph, stack@, vis)
+                && (forall|dep: Seq<int>| dep.len() == order ==> #[trigger] dist_inv_k(digraph, stack@, vis, src_set(all), all.len() as int, dep))
+                && dist_inv_pk(digraph, stack@, vis, src_set(all), all.len() as int, Seq::new(all.len(), |i: int| None::<int>), Seq::<int>::empty()) by {
+                lemma_dist_new_inv(digraph, all, stack@, vis);
+            }
+        }
+    @*/
+
+    /*@fn impl=DfsDist trait=Iterator name=next file=src/algo/dfs_dist.rs subst=Self::Item=>Step
+    requires
+        old(self).wf(),
+    ensures
+        final(self).wf(),
+        final(self).digraph == old(self).digraph,
+        // (known defect F2) the iteration may only end when no unvisited vertex is left on the stack
+        r is None ==> forall|i: int| 0 <= i < final(self).stack@.len() ==> final(self).visited@[(#[trigger] final(self).stack@[i]).0 as int],
+        // None: nothing is yielded, nothing is marked; only visited entries are discarded from the top of the stack
+        r is None ==> final(self).visited@ == old(self).visited@,
+        r is None ==> final(self).stack@.len() <= old(self).stack@.len() && forall|i: int| 0 <= i < final(self).stack@.len() ==> #[trigger] final(self).stack@[i] == old(self).stack@[i],
+        r is None ==> forall|i: int| final(self).stack@.len() <= i < old(self).stack@.len() ==> old(self).visited@[(#[trigger] old(self).stack@[i]).0 as int],
+        // Some((v, d)): v was unvisited (never yielded before) and is the only vertex newly marked
+        r is Some ==> (r->0).0 < old(self).digraph.ord() && !old(self).visited@[(r->0).0 as int] && final(self).visited@ == old(self).visited@.update((r->0).0 as int, true),
+        // Some((v, d)): (v, d) was the topmost unvisited stack entry; it is replaced by exactly the unvisited out-neighbours of v, with depth d + 1
+        r is Some ==> exists|m: int| dist_yield_at(old(self).digraph, old(self).stack@, old(self).visited@, final(self).stack@, final(self).visited@, r->0, m),
+        // the search invariant is preserved; the reported depth of the yielded vertex is recorded in `dep`
+        forall|s: Set<int>, dep: Seq<int>| #[trigger] old(self).inv(s, dep) ==> final(self).inv(s, if r is Some { dep.update((r->0).0 as int, (r->0).1 as int) } else { dep }),
+        // C06: only reachable vertices are yielded, in depth-first preorder, with their depth in the search forest
+        r is Some ==> forall|s: Set<int>, dep: Seq<int>| #[trigger] old(self).inv(s, dep) ==> reachable(arcs_of(old(self).digraph), s, (r->0).0 as int),
+        r is Some ==> forall|s: Set<int>, dep: Seq<int>| #[trigger] old(self).inv(s, dep) ==> preorder_step(arcs_of(old(self).digraph), old(self).digraph.ord() as int, s, old(self).visited@, (r->0).0 as int),
+        r is Some ==> forall|s: Set<int>, dep: Seq<int>| #[trigger] old(self).inv(s, dep) ==> dist_step(arcs_of(old(self).digraph), old(self).digraph.ord() as int, s, old(self).visited@, dep, (r->0).0 as int, (r->0).1 as int),
+        // C06 (search path): v is yielded as a new root or as an out-neighbour of the deepest vertex p on the current search
+        // path that still has an unvisited out-neighbour; the search path becomes path[..= p] + [v] ([v] for a root) and the
+        // reported depth is the depth of v in that search tree (the length of the new search path minus one)
+        r is None ==> forall|s: Set<int>, path: Seq<int>| #[trigger] old(self).inv_p(s, path) ==> final(self).inv_p(s, path),
+        r is Some ==> forall|s: Set<int>, path: Seq<int>| #[trigger] old(self).inv_p(s, path) ==> exists|p: Option<int>| final(self).inv_p(s, #[trigger] path_after(path, p, (r->0).0 as int)) && search_step(arcs_of(old(self).digraph), old(self).digraph.ord() as int, s, old(self).visited@, path, p, (r->0).0 as int) && (r->0).1 == path_after(path, p, (r->0).0 as int).len() - 1,
+    @before `return None;`
+        proof {
+            assert(self.sv() =~= old(self).sv().drop_last());
+            assert(self.sd() =~= old(self).sd().drop_last());
+            assert forall|s: Set<int>, dep: Seq<int>| #[trigger] old(self).inv(s, dep) implies self.inv(s, dep) by {
+                let k = choose|k: int| dist_inv_k(old(self).digraph, old(self).stack@, old(self).visited@, s, k, dep);
+                lemma_core_pop_visited(arcs_of(self.digraph), self.digraph.ord() as int, s, k, old(self).visited@, old(self).sv());
+                lemma_dist_pop_visited(arcs_of(self.digraph), self.digraph.ord() as int, k, old(self).visited@, dep, old(self).sv(), old(self).sd());
+                assert(self.inv_k(s, roots_after_pop(k, old(self).stack@.len() as int), dep));
+            }
+            assert forall|s: Set<int>, path: Seq<int>| #[trigger] old(self).inv_p(s, path) implies self.inv_p(s, path) by {
+                lemma_dist_discard_path(self.digraph, old(self).stack@, old(self).visited@, self.stack@, s, path);
+            }
+        }
+    @before `let w = w + 1;`
+        proof {
+            lemma_count_false_update(old(self).visited@, u as int);
+        }
+    @loop 1
+    invariant
+        it1.iter.obeys_prophetic_iter_laws(),
+        it1.iter.decrease() is Some,
+        self.digraph == old(self).digraph,
+        old(self).wf(),
+        self.wf(),
+        old(self).stack@.len() > 0,
+        step == old(self).stack@.last(),
+        u == step.0,
+        w == step.1 + 1,
+        w + count_false(self.visited@) <= self.digraph.ord(),
+        !old(self).visited@[u as int],
+        self.visited@ == old(self).visited@.update(u as int, true),
+        self.stack@.len() >= old(self).stack@.len() - 1,
+        forall|i: int| 0 <= i < old(self).stack@.len() - 1 ==> #[trigger] self.stack@[i] == old(self).stack@[i],
+        forall|i: int| 0 <= i < it1.seq().len() ==> self.digraph.has(u as int, #[trigger] it1.seq()[i] as int),
+        forall|j: int| old(self).stack@.len() - 1 <= j < self.stack@.len() ==> self.digraph.has(u as int, (#[trigger] self.stack@[j]).0 as int) && !self.visited@[self.stack@[j].0 as int] && self.stack@[j].1 == w,
+        forall|x: usize| #[trigger] self.digraph.has(u as int, x as int) && !self.visited@[x as int] ==> on_stack_from(self.sv(), old(self).stack@.len() - 1, x as int) || pending(it1.seq(), it1.index(), x),
+    @loop_start 1
+        let ghost sv_prev = self.sv();
+    @loop_end 1
+        proof {
+            lemma_on_stack_mono(sv_prev, self.sv(), old(self).stack@.len() - 1);
+            if !self.visited@[v as int] {
+                assert(self.sv()[self.stack@.len() - 1] == v as int);
+            }
+        }
+    @fn_end
+        proof {
+            let ghost n0 = old(self).stack@.len() - 1;
+            let ghost has = arcs_of(self.digraph);
+            let ghost ord = self.digraph.ord() as int;
+            let ghost pushed = self.sv().skip(n0);
+            let ghost pd = self.sd().skip(n0);
+            assert(old(self).sv().last() == u as int);
+            assert(old(self).sd().last() == step.1 as int);
+            assert(self.sv() =~= old(self).sv().drop_last() + pushed && self.sd() =~= old(self).sd().drop_last() + pd);
+            assert forall|x: int| #[trigger] self.digraph.has(u as int, x) && !self.visited@[x] implies on_stack_from(self.sv(), n0, x) by {
+                let xu = x as usize;
+                assert(self.digraph.has(u as int, xu as int));
+            }
+            assert(dist_yield_at(old(self).digraph, old(self).stack@, old(self).visited@, self.stack@, self.visited@, step, n0));
+            assert forall|x: int| #[trigger] has(u as int, x) && !self.visited@[x] implies pushed.contains(x) by {
+                assert(self.digraph.has(u as int, x));
+                assert(on_stack_from(self.sv(), n0, x));
+                let i = choose|i: int| n0 <= i < self.sv().len() && #[trigger] self.sv()[i] == x;
+                assert(pushed[i - n0] == x);
+            }
+            assert forall|j: int| 0 <= j < pushed.len() implies has(u as int, #[trigger] pushed[j]) && !self.visited@[pushed[j]] by {
+                assert(pushed[j] == self.stack@[n0 + j].0 as int);
+            }
+            assert forall|j: int| 0 <= j < pushed.len() implies #[trigger] pd[j] == step.1 + 1 by {
+                assert(pd[j] == self.stack@[n0 + j].1 as int);
+            }
+            assert forall|s: Set<int>, dep: Seq<int>| #[trigger] old(self).inv(s, dep) implies
+                self.inv(s, dep.update(u as int, step.1 as int))
+                && reachable(has, s, u as int)
+                && preorder_step(has, ord, s, old(self).visited@, u as int)
+                && dist_step(has, ord, s, old(self).visited@, dep, u as int, step.1 as int) by {
+                let k = choose|k: int| dist_inv_k(old(self).digraph, old(self).stack@, old(self).visited@, s, k, dep);
+                lemma_core_push_step(has, ord, s, k, old(self).visited@, old(self).sv(), pushed);
+                lemma_core_top_preorder(has, ord, s, k, old(self).visited@, old(self).sv());
+                lemma_dist_push_step(has, ord, k, old(self).visited@, dep, old(self).sv(), old(self).sd(), pushed, pd);
+                lemma_dist_top(has, ord, s, k, old(self).visited@, dep, old(self).sv(), old(self).sd());
+                assert(self.inv_k(s, roots_after_pop(k, old(self).stack@.len() as int), dep.update(u as int, step.1 as int)));
+            }
+            assert forall|s: Set<int>, path: Seq<int>| #[trigger] old(self).inv_p(s, path) implies
+                (exists|p: Option<int>| self.inv_p(s, #[trigger] path_after(path, p, u as int)) && search_step(has, ord, s, old(self).visited@, path, p, u as int) && step.1 == path_after(path, p, u as int).len() - 1) by {
+                lemma_dist_yield_path(self.digraph, old(self).stack@, old(self).visited@, self.stack@, self.visited@, step, s, path);
+            }
+        }
+    @*/
+}
+
+// =====================================================================================================================
+// DfsPred
+// =====================================================================================================================
+/// recorded predecessors of the stack entries as Option<int>
+spec fn opt_int(p: Option<usize>) -> Option<int> { match p { Some(q) => Some(q as int), None => None } }
+
+spec fn pred_sp(st: Seq<(Option<usize>, usize)>) -> Seq<Option<int>> { Seq::new(st.len(), |i: int| opt_int(st[i].0)) }
+
+/// search invariant including the current search path `path` (see speclib/dfs_lemmas.rs, path_inv)
+spec fn pred_inv_pk(dg: &Dg, st: Seq<(Option<usize>, usize)>, vis: Seq<bool>, s: Set<int>, k: int, path: Seq<int>) -> bool {
+    &&& pred_inv_k(dg, st, vis, s, k)
+    &&& path_inv(arcs_of(dg), dg.ord() as int, k, vis, pred_sv(st), pred_sp(st), path)
+}
+
+spec fn pred_inv_p(dg: &Dg, st: Seq<(Option<usize>, usize)>, vis: Seq<bool>, s: Set<int>, path: Seq<int>) -> bool {
+    exists|k: int| pred_inv_pk(dg, st, vis, s, k, path)
+}
+
+/// discarding a visited top entry keeps the search-path invariant
+proof fn lemma_pred_discard_path(dg: &Dg, st0: Seq<(Option<usize>, usize)>, vis: Seq<bool>, st1: Seq<(Option<usize>, usize)>, s: Set<int>, path: Seq<int>)
+    requires
+        pred_inv_p(dg, st0, vis, s, path),
+        st0.len() > 0,
+        vis[st0.last().1 as int],
+        st1 == st0.drop_last(),
+    ensures
+        pred_inv_p(dg, st1, vis, s, path),
+{
+    let k = choose|k: int| pred_inv_pk(dg, st0, vis, s, k, path);
+    let has = arcs_of(dg);
+    let ord = dg.ord() as int;
+    let k2 = roots_after_pop(k, st0.len() as int);
+    assert(pred_sv(st1) =~= pred_sv(st0).drop_last());
+    assert(pred_sp(st1) =~= pred_sp(st0).drop_last());
+    assert(pred_sv(st0).last() == st0.last().1 as int);
+    lemma_core_pop_visited(has, ord, s, k, vis, pred_sv(st0));
+    lemma_path_pop_visited(has, ord, k, vis, pred_sv(st0), pred_sp(st0), path);
+    assert(pred_inv_pk(dg, st1, vis, s, k2, path));
+}
+
+/// yielding the (unvisited) top entry e = (p, v): the search path becomes path[..= p] + [v] (or [v] for a root), and p
+/// was the deepest path vertex with an unvisited out-neighbour
+proof fn lemma_pred_yield_path(dg: &Dg, st0: Seq<(Option<usize>, usize)>, vis0: Seq<bool>, st1: Seq<(Option<usize>, usize)>, vis1: Seq<bool>, e: (Option<usize>, usize), s: Set<int>, path: Seq<int>)
+    requires
+        pred_inv_p(dg, st0, vis0, s, path),
+        st0.len() > 0,
+        e == st0.last(),
+        !vis0[e.1 as int],
+        vis1 == vis0.update(e.1 as int, true),
+        pred_yield_at(dg, st0, vis0, st1, vis1, e, st0.len() - 1),
+    ensures
+        pred_inv_p(dg, st1, vis1, s, path_after(path, opt_int(e.0), e.1 as int)),
+        e.0 is Some ==> deepest_step(arcs_of(dg), dg.ord() as int, vis0, path, e.0->0 as int, e.1 as int),
+        e.0 is None ==> visited_closed(arcs_of(dg), dg.ord() as int, vis0),
+{
+    let k = choose|k: int| pred_inv_pk(dg, st0, vis0, s, k, path);
+    let has = arcs_of(dg);
+    let ord = dg.ord() as int;
+    let n0 = st0.len() - 1;
+    let v = e.1 as int;
+    let k2 = roots_after_pop(k, st0.len() as int);
+    let sv0 = pred_sv(st0);
+    let sp0 = pred_sp(st0);
+    let sv1 = pred_sv(st1);
+    let sp1 = pred_sp(st1);
+    let pushed = sv1.skip(n0);
+    assert(sv0.last() == v && sp0.last() == opt_int(e.0));
+    assert(sv1 =~= sv0.drop_last() + pushed);
+    assert(sp1 =~= sp0.drop_last() + Seq::new(pushed.len(), |i: int| Some(v))) by {
+        assert forall|i: int| n0 <= i < st1.len() implies sp1[i] == Some(v) by {
+            assert(st1[i].0 == Some(e.1));
+        }
+    }
+    assert forall|x: int| #[trigger] has(v, x) && !vis1[x] implies pushed.contains(x) by {
+        assert(dg.has(v, x));
+        assert(on_stack_from(sv1, n0, x));
+        let i = choose|i: int| n0 <= i < sv1.len() && #[trigger] sv1[i] == x;
+        assert(pushed[i - n0] == x);
+    }
+    assert forall|j: int| 0 <= j < pushed.len() implies has(v, #[trigger] pushed[j]) && !vis1[pushed[j]] by {
+        assert(pushed[j] == st1[n0 + j].1 as int);
+    }
+    lemma_core_push_step(has, ord, s, k, vis0, sv0, pushed);
+    lemma_path_push_step(has, ord, k, vis0, sv0, sp0, path, pushed);
+    assert(pred_wf(dg, st1, vis1)) by {
+        assert forall|i: int| 0 <= i < st1.len() implies (#[trigger] st1[i]).1 < dg.ord() by {
+            assert(sv1[i] == st1[i].1 as int);
+        }
+        assert forall|i: int| 0 <= i < st1.len() && (#[trigger] st1[i]).0 is Some implies ({
+                let q = st1[i].0->0;
+                q < dg.ord() && vis1[q as int] && dg.has(q as int, st1[i].1 as int) }) by {
+            if i < n0 { assert(st1[i] == st0[i]); }
+        }
+    }
+    assert forall|i: int| 0 <= i < st1.len() implies ((#[trigger] st1[i]).0 is None <==> i < k2) by {
+        if i < n0 { assert(st1[i] == st0[i]); }
+    }
+    assert(pred_inv_pk(dg, st1, vis1, s, k2, path_after(path, opt_int(e.0), v)));
+}
+
+/// the state built by `new` satisfies the search invariants (empty search path)
+proof fn lemma_pred_new_inv(dg: &Dg, all: Seq<usize>, st: Seq<(Option<usize>, usize)>, vis: Seq<bool>)
+    requires
+        dg.wf(),
+        st == Seq::new(all.len(), |i: int| (None::<usize>, all[i])),
+        forall|i: int| 0 <= i < all.len() ==> #[trigger] all[i] < dg.ord(),
+        vis.len() == dg.ord(),
+        forall|i: int| 0 <= i < vis.len() ==> !#[trigger] vis[i],
+    ensures
+        pred_inv_k(dg, st, vis, src_set(all), all.len() as int),
+        pred_inv_pk(dg, st, vis, src_set(all), all.len() as int, Seq::<int>::empty()),
+{
+    lemma_src_set(all);
+    let sv = pred_sv(st);
+    assert forall|i: int| 0 <= i < sv.len() implies src_set(all).contains(#[trigger] sv[i]) by {
+        assert(all[i] as int == sv[i]);
+        assert(is_src(all, sv[i]));
+    }
+    assert forall|x: int| #[trigger] src_set(all).contains(x) implies 0 <= x < dg.ord() && on_stack_from(sv, 0, x) by {
+        assert(is_src(all, x));
+        let i = choose|i: int| 0 <= i < all.len() && #[trigger] all[i] as int == x;
+        assert(sv[i] == x);
+    }
+    assert(pred_wf(dg, st, vis));
+    assert(dfs_core(arcs_of(dg), dg.ord() as int, src_set(all), all.len() as int, vis, sv));
+}
+
+impl PredecessorTree {
+    /*@fn impl=PredecessorTree name=new file=src/algo/predecessor_tree.rs
+    ensures
+        order > 0,
+        r.pred@ == Seq::new(order as nat, |i: int| None::<usize>),
+    @*/
+}
+
+// the DfsPred invariants as functions of the parts of the state
+spec fn pred_sv(st: Seq<(Option<usize>, usize)>) -> Seq<int> { Seq::new(st.len(), |i: int| st[i].1 as int) }
+
+spec fn pred_wf(dg: &Dg, st: Seq<(Option<usize>, usize)>, vis: Seq<bool>) -> bool {
+    &&& dg.wf()
+    &&& vis.len() == dg.ord()
+    &&& forall|i: int| 0 <= i < st.len() ==> (#[trigger] st[i]).1 < dg.ord()
+    &&& forall|i: int| 0 <= i < st.len() && (#[trigger] st[i]).0 is Some ==> {
+            let q = st[i].0->0;
+            q < dg.ord() && vis[q as int] && dg.has(q as int, st[i].1 as int) }
+}
+
+spec fn pred_inv_k(dg: &Dg, st: Seq<(Option<usize>, usize)>, vis: Seq<bool>, s: Set<int>, k: int) -> bool {
+    &&& pred_wf(dg, st, vis)
+    &&& dfs_core(arcs_of(dg), dg.ord() as int, s, k, vis, pred_sv(st))
+    &&& forall|i: int| 0 <= i < st.len() ==> ((#[trigger] st[i]).0 is None <==> i < k)
+}
+
+spec fn pred_inv(dg: &Dg, st: Seq<(Option<usize>, usize)>, vis: Seq<bool>, s: Set<int>) -> bool {
+    exists|k: int| pred_inv_k(dg, st, vis, s, k)
+}
+
+/// a `Some((p, v))` step: (p, v) = st0[m] is the topmost unvisited entry (the entries above it are visited and
+/// discarded); it is replaced by exactly the unvisited out-neighbours of v, each with predecessor v
+spec fn pred_yield_at(dg: &Dg, st0: Seq<(Option<usize>, usize)>, vis0: Seq<bool>, st1: Seq<(Option<usize>, usize)>, vis1: Seq<bool>, e: (Option<usize>, usize), m: int) -> bool {
+    &&& 0 <= m < st0.len() && st0[m] == e
+    &&& forall|i: int| m < i < st0.len() ==> vis0[(#[trigger] st0[i]).1 as int]
+    &&& st1.len() >= m
+    &&& forall|i: int| 0 <= i < m ==> #[trigger] st1[i] == st0[i]
+    &&& forall|j: int| m <= j < st1.len() ==> (#[trigger] st1[j]).0 == Some(e.1) && dg.has(e.1 as int, st1[j].1 as int) && !vis1[st1[j].1 as int]
+    &&& forall|x: int| #[trigger] dg.has(e.1 as int, x) && !vis1[x] ==> on_stack_from(pred_sv(st1), m, x)
+}
+
+impl<'a> DfsPred<'a> {
+    /// vertices of the stack entries, bottom first
+    spec fn sv(&self) -> Seq<int> { pred_sv(self.stack@) }
+
+    /// memory-safety invariant (C13) + every recorded predecessor is a visited in-neighbour
+    spec fn wf(&self) -> bool { pred_wf(self.digraph, self.stack@, self.visited@) }
+
+    /// search invariant w.r.t. source set `s` and root count `k`: the root entries are exactly the entries (None, _)
+    spec fn inv_k(&self, s: Set<int>, k: int) -> bool { pred_inv_k(self.digraph, self.stack@, self.visited@, s, k) }
+
+    /// search invariant w.r.t. source set `s`
+    spec fn inv(&self, s: Set<int>) -> bool { pred_inv(self.digraph, self.stack@, self.visited@, s) }
+
+    /// search invariant w.r.t. source set `s` and the current search path `path`
+    spec fn inv_p(&self, s: Set<int>, path: Seq<int>) -> bool { pred_inv_p(self.digraph, self.stack@, self.visited@, s, path) }
+
+    /// EXHAUSTION (C06 "every reachable vertex is yielded"), as for Dfs
+    proof fn lemma_exhausted(&self, s: Set<int>)
+        requires
+            self.inv(s),
+            forall|i: int| 0 <= i < self.stack@.len() ==> self.visited@[(#[trigger] self.stack@[i]).1 as int],
+        ensures
+            visited_is_reachable(arcs_of(self.digraph), self.digraph.ord() as int, s, self.visited@),
+    {
+        let k = choose|k: int| pred_inv_k(self.digraph, self.stack@, self.visited@, s, k);
+        assert forall|i: int| 0 <= i < self.sv().len() implies self.visited@[#[trigger] self.sv()[i]] by {
+            assert(self.visited@[self.stack@[i].1 as int]);
+        }
+        lemma_core_exhausted(arcs_of(self.digraph), self.digraph.ord() as int, s, k, self.visited@, self.sv());
+    }
+
+    /*@fn impl=DfsPred name=new file=src/algo/dfs_pred.rs subst=D=>Dg;Step=>(Option<usize>,usize) drop=D dropwhere=D
+    requires
+        digraph.wf(),
+        sources.obeys_prophetic_iter_laws(),
+        sources.decrease() is Some,
+    ensures
+        forall|i: int| 0 <= i < sources.remaining().len() ==> #[trigger] sources.remaining()[i] < digraph.ord(),
+        r.digraph == digraph,
+        r.stack@ == Seq::new(sources.remaining().len(), |i: int| (None::<usize>, sources.remaining()[i])),
+        r.visited@ == Seq::new(digraph.ord(), |i: int| false),
+        r.wf(),
+        r.inv_k(src_set(sources.remaining()), sources.remaining().len() as int),
+        r.inv(src_set(sources.remaining())),
+        pred_inv_pk(r.digraph, r.stack@, r.visited@, src_set(sources.remaining()), sources.remaining().len() as int, Seq::<int>::empty()) && r.inv_p(src_set(sources.remaining()), Seq::<int>::empty()),
+    @fn_start
+        let ghost all = sources.remaining();
+    @loop 1
+    invariant
+        it1.iter.obeys_prophetic_iter_laws(),
+        it1.iter.decrease() is Some,
+        it1.seq() == all,
+        order == digraph.ord(),
+        stack@ =~= Seq::new(it1.index() as nat, |i: int| (None::<usize>, all[i])),
+        0 <= it1.index() <= all.len(),
+        forall|i: int| 0 <= i < it1.index() ==> #[trigger] it1.seq()[i] < order,
+    @fn_end
+        proof {
+            assert(stack@ =~= Seq::new(all.len(), |i: int| (None::<usize>, all[i])));
+            assert forall|vis: Seq<bool>| #![trigger pred_inv_k(digraph, stack@, vis, src_set(all), all.len() as int)]
+                vis.len() == order && (forall|i: int| 0 <= i < vis.len() ==> !#[trigger] vis[i]) implies
+                pred_inv_k(digraph, stack@, vis, src_set(all), all.len() as int)
+                && pred_inv_pk(digraph, stack@, vis, src_set(all), all.len() as int, Seq::<int>::empty()) by {
+                lemma_pred_new_inv(digraph, all, stack@, vis);
+            }
+        }
+    @*/
+
+    /*@fn impl=DfsPred trait=Iterator name=next file=src/algo/dfs_pred.rs subst=Self::Item=>(Option<usize>,usize);Step=>(Option<usize>,usize)
+    requires
+        old(self).wf(),
+    ensures
+        final(self).wf(),
+        final(self).digraph == old(self).digraph,
+        // (known defect F2) the iteration may only end when no unvisited vertex is left on the stack
+        r is None ==> forall|i: int| 0 <= i < final(self).stack@.len() ==> final(self).visited@[(#[trigger] final(self).stack@[i]).1 as int],
+        // None: nothing is yielded, nothing is marked; only visited entries are discarded from the top of the stack
+        r is None ==> final(self).visited@ == old(self).visited@,
+        r is None ==> final(self).stack@.len() <= old(self).stack@.len() && forall|i: int| 0 <= i < final(self).stack@.len() ==> #[trigger] final(self).stack@[i] == old(self).stack@[i],
+        r is None ==> forall|i: int| final(self).stack@.len() <= i < old(self).stack@.len() ==> old(self).visited@[(#[trigger] old(self).stack@[i]).1 as int],
+        // Some((p, v)): v was unvisited (never yielded before) and is the only vertex newly marked
+        r is Some ==> (r->0).1 < old(self).digraph.ord() && !old(self).visited@[(r->0).1 as int] && final(self).visited@ == old(self).visited@.update((r->0).1 as int, true),
+        // Some((p, v)): (p, v) was the topmost unvisited stack entry; it is replaced by exactly the unvisited out-neighbours of v, with predecessor v
+        r is Some ==> exists|m: int| pred_yield_at(old(self).digraph, old(self).stack@, old(self).visited@, final(self).stack@, final(self).visited@, r->0, m),
+        // C06: a reported predecessor q of v is an already visited (= yielded) vertex with an arc q -> v
+        r is Some && (r->0).0 is Some ==> (r->0).0->0 < old(self).digraph.ord() && old(self).visited@[(r->0).0->0 as int] && old(self).digraph.has((r->0).0->0 as int, (r->0).1 as int),
+        // the search invariant is preserved, for every source set it holds for
+        forall|s: Set<int>| #[trigger] old(self).inv(s) ==> final(self).inv(s),
+        // C06: only reachable vertices are yielded, in depth-first preorder; None is reported exactly for new roots
+        r is Some ==> forall|s: Set<int>| #[trigger] old(self).inv(s) ==> reachable(arcs_of(old(self).digraph), s, (r->0).1 as int),
+        r is Some ==> forall|s: Set<int>| #[trigger] old(self).inv(s) ==> preorder_step(arcs_of(old(self).digraph), old(self).digraph.ord() as int, s, old(self).visited@, (r->0).1 as int),
+        r is Some ==> forall|s: Set<int>| #[trigger] old(self).inv(s) ==> pred_step(arcs_of(old(self).digraph), old(self).digraph.ord() as int, s, old(self).visited@, (r->0).0, (r->0).1 as int),
+        // C06 (search path): after yielding (p, v) the current search path is path[..= p] + [v], or [v] for a new root
+        forall|s: Set<int>, path: Seq<int>| #[trigger] old(self).inv_p(s, path) ==> final(self).inv_p(s, if r is Some { path_after(path, opt_int((r->0).0), (r->0).1 as int) } else { path }),
+        // C06: a reported predecessor is the deepest vertex on the current search path that still has an unvisited out-neighbour
+        r is Some && (r->0).0 is Some ==> forall|s: Set<int>, path: Seq<int>| #[trigger] old(self).inv_p(s, path) ==> deepest_step(arcs_of(old(self).digraph), old(self).digraph.ord() as int, old(self).visited@, path, (r->0).0->0 as int, (r->0).1 as int),
+    @before `return None;`
+        proof {
+            assert(self.sv() =~= old(self).sv().drop_last());
+            assert forall|s: Set<int>| #[trigger] old(self).inv(s) implies self.inv(s) by {
+                let k = choose|k: int| pred_inv_k(old(self).digraph, old(self).stack@, old(self).visited@, s, k);
+                lemma_core_pop_visited(arcs_of(self.digraph), self.digraph.ord() as int, s, k, old(self).visited@, old(self).sv());
+                assert(self.inv_k(s, roots_after_pop(k, old(self).stack@.len() as int)));
+            }
+            assert forall|s: Set<int>, path: Seq<int>| #[trigger] old(self).inv_p(s, path) implies self.inv_p(s, path) by {
+                lemma_pred_discard_path(self.digraph, old(self).stack@, old(self).visited@, self.stack@, s, path);
+            }
+        }
+    @loop 1
+    invariant
+        it1.iter.obeys_prophetic_iter_laws(),
+        it1.iter.decrease() is Some,
+        self.digraph == old(self).digraph,
+        old(self).wf(),
+        self.wf(),
+        old(self).stack@.len() > 0,
+        step == old(self).stack@.last(),
+        v == step.1,
+        !old(self).visited@[v as int],
+        self.visited@ == old(self).visited@.update(v as int, true),
+        self.stack@.len() >= old(self).stack@.len() - 1,
+        forall|i: int| 0 <= i < old(self).stack@.len() - 1 ==> #[trigger] self.stack@[i] == old(self).stack@[i],
+        forall|i: int| 0 <= i < it1.seq().len() ==> self.digraph.has(v as int, #[trigger] it1.seq()[i] as int),
+        forall|j: int| old(self).stack@.len() - 1 <= j < self.stack@.len() ==> (#[trigger] self.stack@[j]).0 == Some(v) && self.digraph.has(v as int, self.stack@[j].1 as int) && !self.visited@[self.stack@[j].1 as int],
+        forall|y: usize| #[trigger] self.digraph.has(v as int, y as int) && !self.visited@[y as int] ==> on_stack_from(self.sv(), old(self).stack@.len() - 1, y as int) || pending(it1.seq(), it1.index(), y),
+    @loop_start 1
+        let ghost sv_prev = self.sv();
+    @loop_end 1
+        proof {
+            lemma_on_stack_mono(sv_prev, self.sv(), old(self).stack@.len() - 1);
+            if !self.visited@[x as int] {
+                assert(self.sv()[self.stack@.len() - 1] == x as int);
+            }
+        }
+    @fn_end
+        proof {
+            let ghost n0 = old(self).stack@.len() - 1;
+            let ghost has = arcs_of(self.digraph);
+            let ghost ord = self.digraph.ord() as int;
+            let ghost pushed = self.sv().skip(n0);
+            assert(old(self).sv().last() == v as int);
+            assert(self.sv() =~= old(self).sv().drop_last() + pushed);
+            assert forall|y: int| #[trigger] self.digraph.has(v as int, y) && !self.visited@[y] implies on_stack_from(self.sv(), n0, y) by {
+                let yu = y as usize;
+                assert(self.digraph.has(v as int, yu as int));
+            }
+            assert(pred_yield_at(old(self).digraph, old(self).stack@, old(self).visited@, self.stack@, self.visited@, step, n0));
+            assert forall|y: int| #[trigger] has(v as int, y) && !self.visited@[y] implies pushed.contains(y) by {
+                assert(self.digraph.has(v as int, y));
+                assert(on_stack_from(self.sv(), n0, y));
+                let i = choose|i: int| n0 <= i < self.sv().len() && #[trigger] self.sv()[i] == y;
+                assert(pushed[i - n0] == y);
+            }
+            assert forall|j: int| 0 <= j < pushed.len() implies has(v as int, #[trigger] pushed[j]) && !self.visited@[pushed[j]] by {
+                assert(pushed[j] == self.stack@[n0 + j].1 as int);
+            }
+            assert forall|s: Set<int>| #[trigger] old(self).inv(s) implies
+                self.inv(s)
+                && reachable(has, s, v as int)
+                && preorder_step(has, ord, s, old(self).visited@, v as int)
+                && pred_step(has, ord, s, old(self).visited@, step.0, v as int) by {
+                let k = choose|k: int| pred_inv_k(old(self).digraph, old(self).stack@, old(self).visited@, s, k);
+                lemma_core_push_step(has, ord, s, k, old(self).visited@, old(self).sv(), pushed);
+                lemma_core_top_preorder(has, ord, s, k, old(self).visited@, old(self).sv());
+                assert(old(self).stack@[n0] == step);
+                assert(self.inv_k(s, roots_after_pop(k, old(self).stack@.len() as int)));
+            }
+            assert forall|s: Set<int>, path: Seq<int>| #[trigger] old(self).inv_p(s, path) implies
+                self.inv_p(s, path_after(path, opt_int(step.0), v as int))
+                && (step.0 is Some ==> deepest_step(has, ord, old(self).visited@, path, step.0->0 as int, v as int)) by {
+                lemma_pred_yield_path(self.digraph, old(self).stack@, old(self).visited@, self.stack@, self.visited@, step, s, path);
+            }
+        }
+    @*/
+
+    /*@fn impl=DfsPred name=predecessors file=src/algo/dfs_pred.rs subst=D=>Dg drop=D dropwhere=D
+    requires
+        old(self).wf(),
+    ensures
+        final(self).wf(),
+        final(self).digraph == old(self).digraph,
+        r.pred@.len() == old(self).digraph.ord(),
+        // the iteration was run to its end: no unvisited vertex is left on the stack
+        forall|i: int| 0 <= i < final(self).stack@.len() ==> final(self).visited@[(#[trigger] final(self).stack@[i]).1 as int],
+        // C06: r is the forest of the yields: every vertex yielded exactly once, pred = reported predecessor (an earlier
+        // visited in-neighbour), None for vertices that were not yielded
+        exists|ys: Seq<(Option<usize>, usize)>| pred_forest(arcs_of(old(self).digraph), old(self).digraph.ord() as int, old(self).visited@, final(self).visited@, r.pred@, ys),
+        // C06: the trees are rooted at sources
+        forall|s: Set<int>, v: int| #![trigger old(self).inv(s), r.pred@[v]] old(self).inv(s) && 0 <= v < old(self).digraph.ord() && !old(self).visited@[v] && final(self).visited@[v] && r.pred@[v] is None ==> s.contains(v),
+        // C06: exactly the vertices reachable from a source have been yielded (visited)
+        forall|s: Set<int>| #[trigger] old(self).inv(s) ==> final(self).inv(s) && visited_is_reachable(arcs_of(old(self).digraph), old(self).digraph.ord() as int, s, final(self).visited@),
+    @before `for (u, v) in self`
+        let ghost mut prev = *self;
+        let ghost mut ys: Seq<(Option<usize>, usize)> = Seq::empty();
+        proof {
+            lemma_pred_forest_init(arcs_of(self.digraph), self.digraph.ord() as int, self.visited@);
+        }
+    @loop 1
+    invariant_except_break
+        prev == *self,
+    invariant
+        self.wf(),
+        self.digraph == old(self).digraph,
+        pred_forest(arcs_of(self.digraph), self.digraph.ord() as int, old(self).visited@, self.visited@, pred.pred@, ys),
+        forall|s: Set<int>, v: int| #![trigger old(self).inv(s), pred.pred@[v]] old(self).inv(s) && 0 <= v < self.digraph.ord() && !old(self).visited@[v] && self.visited@[v] && pred.pred@[v] is None ==> s.contains(v),
+        forall|s: Set<int>| #[trigger] old(self).inv(s) ==> self.inv(s),
+    ensures
+        forall|i: int| 0 <= i < self.stack@.len() ==> self.visited@[(#[trigger] self.stack@[i]).1 as int],
+    decreases
+        count_false(self.visited@),
+    @loop_start 1
+        proof {
+            lemma_count_false_update(prev.visited@, v as int);
+            lemma_pred_forest_step(arcs_of(self.digraph), self.digraph.ord() as int, old(self).visited@, prev.visited@, pred.pred@, ys, u, v);
+        }
+    @loop_end 1
+        proof {
+            ys = ys.push((u, v));
+            prev = *self;
+        }
+    @fn_end
+        proof {
+            assert forall|s: Set<int>| #[trigger] old(self).inv(s) implies visited_is_reachable(arcs_of(self.digraph), self.digraph.ord() as int, s, self.visited@) by {
+                self.lemma_exhausted(s);
+            }
+        }
     @*/
 }
 
